@@ -335,6 +335,8 @@ def run(ctx):
     ctx.assumptions += [
         "float evaluation of lattice directions (harness/lattice.py) and the numerical frame classification in harness/x_c04.py (tolerance 1e-12, 1e-8 at a pole)",
         "non-unit Cartesian sources use one radius (0.5) for all supplied vectors",
-        "supplied centres are the exact centroids; edge centres are judged against the node pairs of the grid's own edge_node_connectivity",
+        "supplied centres are the exact centroids or (every other history) directions off the centroid; edge centres are judged against the node pairs of the grid's own edge_node_connectivity",
+        "a latitude may carry the rounding of z divided by cos(lat): tolerance max(1e-12, 16 ulp / cos lat); an element with 1 - |z| < 1e-8 (within 0.0081 degrees of a pole) may read as that pole",
+        "polar-cap meshes with K > 573 are covered by the scaled twin K = 1 (sign-preserving linear map), not evaluated by TLC directly",
         "TLC's evaluator and the CommunityModules Json reader",
     ]
